@@ -619,6 +619,16 @@ func genHistory(r *rand.Rand, n int) []histStep {
 				st.Calls = []builderCall{{Kind: "Pages", Args: []int{1 + r.Intn(n)}}, {Kind: "JoinParagraphs"}}
 			}
 			nslots++
+			if r.Intn(5) == 0 {
+				// a selection that names a page the document does not have: the probes work
+				// (they open the reader), the terminal operation fails — and must still let go
+				st.Calls = []builderCall{{Kind: "Pages", Args: []int{1 + r.Intn(n), n + 1 + r.Intn(3)}}}
+				hs = append(hs, st)
+				slot := nslots - 1
+				hs = append(hs, histStep{Target: slot, Op: []string{"PageCount", "IsMultiColumn", "IsCharacterLevel"}[r.Intn(3)]},
+					histStep{Target: slot, Op: []string{"Text", "Chunks", "Document", "Fragments"}[r.Intn(4)]})
+				continue
+			}
 		}
 		hs = append(hs, st)
 	}
